@@ -268,7 +268,7 @@ class TableCriterion:
 
 
 def gen_cases(tier: str, seed: int):
-    n = {"quick": 96, "thorough": 1200}[tier]
+    n = {"quick": 96, "thorough": 1000}[tier]
     rng = np.random.default_rng([seed, 1])
     maxd = {"quick": 3, "thorough": 4}[tier]
     # directed family: anisotropic Gaussian targets, depth 3, overlapping sub-tree checks on -- configurations in which a
@@ -287,7 +287,7 @@ def gen_cases(tier: str, seed: int):
         source = ["real", "double", "real", "double", "direct"][i % 5]
         case = {"transition": tkind, "source": source, "seed": [seed, int(rng.integers(0, 2**31))]}
         if tkind in ("multinomial", "slice"):
-            case["depth"] = int(rng.integers(1, 4)) if i % 7 else maxd
+            case["depth"] = int(rng.integers(1, 4)) if i % 10 else maxd
             case["extra_checks"] = bool(rng.integers(0, 2))
             # the multinomial divergence test is relative to the start state's energy, so exact invariance is only claimed
             # (and only holds) when it cannot trigger between finite-energy states; the slice test is start independent
